@@ -209,7 +209,7 @@ func (p *Program) localKey(fn *ssa.Function) string {
 		f = f.Parent()
 	}
 	if f.Pkg != nil {
-		s = strings.Replace(s, f.Pkg.Pkg.Name()+".", "", 1)
+		s = strings.Replace(s, pkgQual(f.Pkg.Pkg)+".", "", 1)
 	}
 	return s
 }
@@ -352,4 +352,14 @@ func (p *Program) allFuncs(pkgPath string) []*ssa.Function {
 	}
 	sort.Slice(out, func(i, j int) bool { return out[i].Pos() < out[j].Pos() })
 	return out
+}
+
+
+// pkgQual is the qualifier go/ssa prints for a package's members: the last element of its import path.
+func pkgQual(p *types.Package) string {
+	path := p.Path()
+	if i := strings.LastIndex(path, "/"); i >= 0 {
+		return path[i+1:]
+	}
+	return path
 }
